@@ -7,7 +7,7 @@ compared with an INDEPENDENT symbolic computation done by z3 over ALL states of 
       of the network - z3 decides  exists x : f(x) = x and x is not reported  -> unsat  (completeness) and evaluates
       f(s) = s for each reported one (soundness);
   (c) every attractor seed lies in its node's space, the fixed-point nodes' seeds are the fixed points, every minimal
-      trap space has exactly one seed and no seed lies in two minimal trap spaces.
+      trap space contains at least one seed (a fixed point exactly one) and no seed lies in two minimal trap spaces.
 
 The update functions are read from the model text by the independent parser of checks/C10.py.  NOT decided here (and
 not claimed): that a complex attractor reported inside a minimal trap space is the only attractor there and that no
@@ -155,10 +155,11 @@ def _check_model(path, size_limit, selftest, strat):
             for i in inside:
                 per_mts[i] += 1
     for i, c in per_mts.items():
-        if c != 1 and "skip" not in strat:
-            fails.append(f"{label}: minimal trap space of node {i} has {c} seeds (every minimal trap space contains an attractor; one seed each)")
-        if c < 1 and "skip" in strat:
-            fails.append(f"{label}: no seed lies in the minimal trap space of node {i} (every attractor is reported at least once)")
+        # every trap space contains at least one attractor (a minimal one may contain several: not decided here)
+        if c < 1:
+            fails.append(f"{label}: no seed lies in the minimal trap space of node {i} (every trap space contains an attractor)")
+        if c > 1 and len(mts[i]) == len(names):
+            fails.append(f"{label}: the fixed point of node {i} is reported {c} times")
     # every fixed point of the network (z3 established above that they are exactly `fps`) is a seed of some node
     flat = [dict(x) for lst in seeds.values() for x in lst]
     for T in fps:
